@@ -459,10 +459,20 @@ class Check:
                 known = {}
                 for c in t.get("calls", []):
                     dep = next(x for x in tt.TIES if x["name"] == c)
-                    tr = pytrans.Translator(known={}, given=dep["given"])
+                    tr = pytrans.Translator(known={}, given=dep["given"], omitted=dep.get("omitted", ()))
                     defs.append(tr.function(pytrans.source_of(dep["file"]), dep["py"], "tr_" + dep["name"], dep["params"]))
                     known[dep["py"]] = ("tr_" + dep["name"], 1)
-                tr = pytrans.Translator(known=known, given=t["given"])
+                if "kparams" in t:       # typed kernel (floats and integers, matrix parameters)
+                    ktr = pytrans.KernelTranslator(matrices=t.get("matrices", {}))
+                    defs.append(ktr.function(pytrans.source_of(t["file"]), t["py"], "tr_" + t["name"], [tuple(x) for x in t["kparams"]]))
+                    kinds = {"T": "T", "Z": "Z", "M": "Z -> Z -> T", "size": "Z"}
+                    bind = " ".join(f"(v_{a} : {kinds[k]})" for a, k in t["kparams"])
+                    names = " ".join("v_" + a for a, _ in t["kparams"])
+                    lemma = (f"Lemma tie_{t['name']} : forall (T : Type) (N : Num T) {bind},\n"
+                             f"  tr_{t['name']} N {names} = {t['model']}.\nProof. intros. reflexivity. Qed.\n")
+                    texts[t["name"]] = tt.IMPORTS + "\n".join(defs) + "\n" + lemma
+                    continue
+                tr = pytrans.Translator(known=known, given=t["given"], omitted=t.get("omitted", ()))
                 defs.append(tr.function(pytrans.source_of(t["file"]), t["py"], "tr_" + t["name"], t["params"]))
                 binders = " ".join("v_" + a for a in t["params"])
                 lemma = (f"Lemma tie_{t['name']} : forall (T : Type) (N : Num T) ({binders} : T),\n"
